@@ -138,6 +138,10 @@ func AccPtr(obj string, p unsafe.Pointer, write bool, loc string) {
 
 // AsmEnter is called before an assembly routine: scheduling point; pointer arguments that fall into a shared
 // region are logged as reads. AsmExit afterwards attributes any changed region to the calling thread as a write.
+// SetFinalizer replaces runtime.SetFinalizer in instrumented code: finalizers would run on the runtime's own goroutine,
+// outside the controlled scheduler.
+func SetFinalizer(obj interface{}, finalizer interface{}) {}
+
 func AsmEnter(name string, loc string, ptrs ...unsafe.Pointer) {
 	e := active
 	if e == nil || e.cur == nil {
